@@ -108,6 +108,49 @@ def gen_pair(r, relation, ext=False):
     return p.ops, G
 
 
+def lattice_pairs(r):
+    """systematic sweep of the settings lattice on one small structure: nested N shared by a root F (configured)
+    and a root G (no Meta); F is exercised first, then G and N alone.  With recursive=False nothing of F's Meta
+    may reach N, whatever other flags are set; with the default recursive=True the known cascade leak (F10) applies."""
+    def cls(cid, fields, wiz, mod, inner=None):
+        return {'op': 'define', 'cid': cid, 'qn': cid, 'mod': mod, 'wiz': wiz, 'base': None, 'mro': [], 'base_qn': None,
+                'inner': inner, 'fields': fields, 'own_fields': fields, 'tag': 'define'}
+    none = {'ltr': None, 'dtr': None, 'raise': None, 'skipdef': None, 'rec': None}
+    dump_opts = [{}, {'dtr': 'SNAKE'}, {'dtr': 'PASCAL'}, {'marshal': 'TIMESTAMP'}, {'skipdef': True},
+                 {'skip_if': {'obj': 11, 'cond': base.SHARED_CONDS[11]}}]
+    load_opts = [{}, {'ltr': 'NONE'}, {'raise': True}, {'tag_key': 'kind'}, {'jk2f': {'obj': 1, 'map': base.SHARED_MAPS[1]}}]
+    out = []
+    for rec in (None, False):
+        for auto in (None, True):
+            for dopt in dump_opts:
+                for lopt in load_opts:
+                    if not dopt and not lopt and auto is None:
+                        continue
+                    meta = dict(none, rec=rec, **dopt, **lopt)
+                    if auto:
+                        meta['auto_tags'] = True
+                    wiz = r.random() < 0.5
+                    nf = [['my_val', 'int', None], ['seen_at', 'datetime', None], ['x', 'int', 0]]
+                    n_inst = {'c': 1, 'f': [['my_val', {'i': r.randrange(1, 9)}], ['seen_at', {'dt': '2020-01-01T00:00:00+00:00'}], ['x', {'i': 0}]]}
+                    n_doc = {'my_val': 2, 'seen_at': '2020-01-01T00:00:00+00:00', 'extra': 'x'}
+                    h = [cls(1, nf, False, 'b'), cls(2, [['n_item', {'nested': 1}, None]], wiz, 'a'),
+                         cls(3, [['n_item', {'nested': 1}, None]], False, 'b')]
+                    if wiz and r.random() < 0.5:
+                        h[1]['inner'] = meta
+                    else:
+                        h.append({'op': 'bind', 'cid': 2, 'meta': meta, 'tag': 'bind'})
+                    f_ops = [{'op': 'dump', 'attr': False, 'inst': {'c': 2, 'f': [['n_item', n_inst]]}, 'tag': 'dump'},
+                             {'op': 'load', 'cid': 2, 'attr': False, 'doc': {'n_item': dict(n_doc, extra=None) if lopt.get('raise') is None else {'my_val': 2, 'seen_at': 1577836800}}, 'tag': 'load'}]
+                    r.shuffle(f_ops)
+                    g_ops = [{'op': 'dump', 'attr': False, 'inst': {'c': 3, 'f': [['n_item', n_inst]]}, 'tag': 'dump'},
+                             {'op': 'load', 'cid': 3, 'attr': False, 'doc': {'n_item': n_doc}, 'tag': 'load'},
+                             {'op': 'dump', 'attr': False, 'inst': n_inst, 'tag': 'dump'},
+                             {'op': 'load', 'cid': 1, 'attr': False, 'doc': n_doc, 'tag': 'load'}]
+                    r.shuffle(g_ops)
+                    out.append((h + f_ops + g_ops, {1, 3}))
+    return out
+
+
 def proj(h, G):
     return [o for o in h if base.op_class(o) in G]
 
@@ -273,6 +316,9 @@ def run(ctx):
         rel = RELATIONS[k % 4] if k % 3 else 'shared_nested'
         px.append(gen_pair(rx, rel, ext=True))
         relx.append(rel)
+    lat = lattice_pairs(rx)
+    px.extend(lat)
+    relx.extend(['lattice'] * len(lat))
     infx = check_pairs(ctx, px, 'c07x', model=False)
     for (h, G), rel, info in zip(px, relx, infx):
         ctx.count(1, key='x:' + base.history_text(h) + json.dumps(sorted(G)), nontrivial=True)
